@@ -208,6 +208,9 @@ pub struct Opts {
     pub odd_order: bool,
     /// make the header block use a dynamic-table reference to an entry inserted earlier in the same block
     pub self_ref: bool,
+    /// split the header block at a header boundary into HEADERS + CONTINUATION even without fancy flags
+    #[allow(dead_code)]
+    pub continuation: bool,
 }
 
 /// Encode the start of an HTTP/2 connection direction. Returns bytes + what was encoded.
@@ -384,7 +387,7 @@ pub fn connection_start(r: &mut Rng, o: &Opts) -> (Vec<u8>, Structure) {
         payload.extend_from_slice(&dep.to_be_bytes());
         payload.push(r.u8());
     }
-    let use_cont = o.fancy_headers && split_points.len() > 2 && r.chance(1, 3);
+    let use_cont = (o.fancy_headers && split_points.len() > 2 && r.chance(1, 3)) || (o.continuation && split_points.len() > 2);
     if use_cont {
         // split at a header boundary (splitting inside a header is C16 territory)
         let cut = split_points[r.urange(0, split_points.len() - 2)];
